@@ -98,7 +98,7 @@ def run(report, tier):
     # notification task(s) and returns at once; workers interleave with it in every way
     from engine.ts import driver
 
-    full = {"name": "all-interleavings", "depth": 16 if tier != "thorough" else 20, "preempt": None, "timeout": 200 if tier != "thorough" else 1500}
+    full = {"name": "all-interleavings", "depth": 16 if tier != "thorough" else 18, "preempt": None, "timeout": 200 if tier != "thorough" else 900}
     jobs = []
     for mx, mn in [(1, 0), (1, 1), (2, 0), (2, 1)] + ([(2, 2), (3, 0)] if tier == "thorough" else []):
         ops = ["start", "enq0", "enq1", "join0"]
